@@ -120,12 +120,12 @@ func compareCall(res *core.Result, sigPrefix, class string, out drive.Out, exps 
 // tagged struct types synthesised at run time
 
 type tagPlan struct {
-	TagNames   []string // tag names to fill ("valid" first)
-	Style      int
-	MaxRules   int
-	Unknown    bool
-	Groups     bool
-	seq        *int
+	TagNames []string // tag names to fill ("valid" first)
+	Style    int
+	MaxRules int
+	Unknown  bool
+	Groups   bool
+	seq      *int
 }
 
 // ruleTag builds the struct tag of one field.
